@@ -58,6 +58,38 @@ class K(object):
 OBJ = K.__new__(K)
 OBJ.base = 10
 
+
+class Falsy(object):
+  """An instance that is falsy (empty container protocol)."""
+
+  def __init__(self, items=()):
+    self.items = list(items)
+
+  def __len__(self):
+    return len(self.items)
+
+  def total(self, a, b=1):
+    LOG.append(('total', a, b, len(self.items)))
+    if a > b:
+      return a + len(self.items)
+    return b
+
+  def __call__(self, a):
+    LOG.append(('falsy-call', a))
+    if a > 0:
+      return a
+    return -a
+
+  @classmethod
+  def make(cls, a):
+    LOG.append(('make', cls.__name__, a))
+    if a > 1:
+      return a
+    return 1
+
+
+EMPTY = Falsy()
+
 part1 = functools.partial(fn, 1, k=7)
 part2 = functools.partial(part1, 4, z=9)
 part_kw = functools.partial(fn, k=7, q=1)
